@@ -29,9 +29,22 @@ def cexprToSexp : Grammar.CExpr → Sexp
   | .bin op a b => .list [.atom "bin", .str op, cexprToSexp a, cexprToSexp b]
   | .tern c a b => .list [.atom "tern", cexprToSexp c, cexprToSexp a, cexprToSexp b]
   | .assign op a b => .list [.atom "assign", .str op, cexprToSexp a, cexprToSexp b]
+  | .stmtExpr items e => .list [.atom "stmtexpr", .list (cstmtsToSexp items), cexprToSexp e]
 def cexprsToSexp : List Grammar.CExpr → List Sexp
   | [] => []
   | e :: es => cexprToSexp e :: cexprsToSexp es
+def cstmtToSexp : Grammar.CStmt → Sexp
+  | .expr e => .list [.atom "expr", cexprToSexp e]
+  | .empty => .list [.atom "empty"]
+  | .block items => .list (.atom "block" :: cstmtsToSexp items)
+  | .if_ c t => .list [.atom "if", cexprToSexp c, cstmtToSexp t]
+  | .ifElse c t e => .list [.atom "ifelse", cexprToSexp c, cstmtToSexp t, cstmtToSexp e]
+  | .for_ i c s b => .list [.atom "for", cexprToSexp i, cexprToSexp c, cexprToSexp s, cstmtToSexp b]
+  | .decl t x => .list [.atom "decl", .str t, .str x]
+  | .declInit t x e => .list [.atom "declinit", .str t, .str x, cexprToSexp e]
+def cstmtsToSexp : List Grammar.CStmt → List Sexp
+  | [] => []
+  | s :: ss => cstmtToSexp s :: cstmtsToSexp ss
 end
 
 def handlePP : List Sexp → Option Sexp
@@ -59,6 +72,12 @@ def handlePP : List Sexp → Option Sexp
       match Grammar.refParseAll ts with
       | none => pure (.atom "none")
       | some e => pure (cexprToSexp e)
+  -- one statement (normally the outer `{ … }` of a behaviour) as token list -> statement tree
+  | (.atom "refparse-stmt" :: toks) => do
+      let ts ← toks.mapM gtokOfSexp
+      match Grammar.refParseStmt ts with
+      | none => pure (.atom "none")
+      | some s => pure (cstmtToSexp s)
   | _ => none
 
 end Rzil
